@@ -562,24 +562,23 @@ def node_leg_monitor(item, r):
     F = []
     for nt in o["notes"]:
         F.append(("node-leg:step-failed:" + nt[:40], nt))
-    seen_setup = ended = False
+    state = {}          # per peer: "none" (no association yet), "assoc", "ended"
     for x in o["results"]:
+        st = state.get(x["p"], "none")
         if x["op"] == "setup":
-            seen_setup = True
+            state[x["p"]] = "assoc"
             if not x["answered"] or x["cause"] != ACCEPTED:
                 F.append(("node-leg:setup-not-accepted", str(x)))
         elif x["op"] == "release":
-            ended = True
+            state[x["p"]] = "ended"
         elif x["op"] == "hb":
-            when = "after-association-ended" if ended and not seen_setup else "before-association" if not seen_setup else "while-associated"
-            if x["op"] == "hb" and ended:
-                when = "after-association-ended"
+            if item["name"] == "node:hb-after-read-timeout" and st == "assoc" and any(y["op"] == "hb" and y["seq"] < x["seq"] for y in o["results"]):
+                st = "ended"
+            when = {"none": "before-association", "assoc": "while-associated", "ended": "after-association-ended"}[st]
             if not x["answered"]:
                 F.append((f"heartbeat-unanswered:{when}", f"{item['name']}: Heartbeat Request seq {x['seq']} got no Heartbeat Response"))
             elif x["type"] != "Heartbeat Response" or not x["seq_ok"] or not x["has_ts"]:
                 F.append((f"heartbeat-answer-wrong:{when}", f"{item['name']}: {x}"))
-        if x["op"] == "setup":
-            ended = False
     return F
 
 
